@@ -16,7 +16,7 @@ func init() {
 	register(&mc.Check{
 		ID:    "C07",
 		Level: "model_checking",
-		Rule: "the shared corpus (collision applications of all other checks + repository examples) x configuration variants (OutputSize 0/tight/ample, CacheSize 0/tight) x ALL input histories up to depth d over the application's selectors + junk {'', zz, 256 x a}; each history is served in lockstep by one long-lived engine and by a fresh store handle + Persister + engine per request on each of mem, fs (text keys), fs (binary keys) and Postgres over the in-process fake, in both client styles after an error (Finish always / Finish only after success); " +
+		Rule: "the shared corpus (collision applications of all other checks + repository examples) x configuration variants (OutputSize 0/tight/ample, CacheSize 0/tight) x ALL input histories up to depth d over the application's selectors + junk {'', zz, 256 x a}; each history is served in lockstep by one long-lived engine and by a fresh store handle + Persister + engine per request on each of mem, fs (text keys), fs (binary keys) and Postgres over the in-process fake, in both client styles after an error (Finish always / Finish only after success), plus one twin whose persister flushes after every save; " +
 			"oracle: per request the tuples (output bytes, continue flag, Exec error?, Flush error?) are equal across all modes and backends, and the stored snapshot decodes and re-encodes to an equal snapshot; states = distinct (app, config, canonical session state) reached; non-trivial = histories whose final position is below the entry node or that passed an error",
 		Assumptions: []string{"a long-lived engine is not continued after its session ended (Exec after a stop is documented as undefined); the persisted twins continue", "external functions are deterministic functions of their own call history"},
 		Run:         c07Run,
@@ -55,6 +55,12 @@ func c07History(ap corpusApp, cfgi int, inputs []string, c *mc.Ctx) (sig, msg st
 			}
 			twins = append(twins, c07Twin{n, s, cl})
 		}
+	}
+	{
+		// one more twin: the persister flushes state and memory after every save (Persister.WithFlush)
+		s, cl := openBackend(ap.Build(), lsOpts{Mode: "persisted", Backend: "mem", Cfg: cfg})
+		s.Flush = true
+		twins = append(twins, c07Twin{"persisted-mem-with-flush", s, cl})
 	}
 	defer func() {
 		for _, t := range twins {
@@ -110,7 +116,7 @@ func c07History(ap corpusApp, cfgi int, inputs []string, c *mc.Ctx) (sig, msg st
 				continue
 			}
 			// saving and loading changes nothing: decode(stored) == in-memory state that was saved
-			if r.FinishErr == "" && t.s.St != nil {
+			if r.FinishErr == "" && t.s.St != nil && !t.s.Flush {
 				st, ca, _, err := t.s.Snapshot()
 				if err != nil {
 					return "snapshot-unreadable", fmt.Sprintf("%s: %s: stored session unreadable: %v", where, t.name, err), reqs
